@@ -1,5 +1,6 @@
 import Vet.Props.C10Regen
 import Vet.Props.C10
+import Vet.Props.Commands
 #print axioms Vet.C10_update_preserves_success_partial
 #print axioms Vet.C10_no_new_conflict_partial
 #print axioms Vet.C10_required_contains_path
@@ -8,3 +9,5 @@ import Vet.Props.C10
 #print axioms Vet.search_regenerate_total
 #print axioms Vet.C10_regenerate_never_missing_partial
 #print axioms Vet.C10_regenerate_chains_partial
+#print axioms Vet.C10_commands_partial
+#print axioms Vet.Cmd.mode_not_regenerate
